@@ -136,3 +136,36 @@ pub fn iter_view_contract_after_fill() {
     assert!(il == k, "VectoredBufIter: recorded bytes are visible");
     assert!(il <= ul);
 }
+
+/// default_set_len over THREE members (capacities 2, 1, 2): dense assignment, members beyond the recorded length
+/// keep length 0 (seeded change C10-2: a wrong running remainder only shows from the third member on)
+#[kani::proof]
+#[kani::unwind(7)]
+pub fn default_set_len_three_members() {
+    let mut bufs = [mk(2, 0, 10), mk(1, 0, 20), mk(2, 0, 30)];
+    for b in bufs.iter_mut() { for c in b.spare_capacity_mut() { c.write(7); } }
+    let n = any_le(7);
+    unsafe { SetLen::set_len(&mut bufs, n) };
+    let want = if n > 5 { 5 } else { n };
+    assert!(bufs[0].len() == if want > 2 { 2 } else { want });
+    assert!(bufs[1].len() == if want > 3 { 1 } else if want > 2 { want - 2 } else { 0 });
+    assert!(bufs[2].len() == if want > 3 { want - 3 } else { 0 });
+    assert!(bufs[0].len() + bufs[1].len() + bufs[2].len() == want);
+}
+
+/// Vec<T> of three members through slice_mut(begin) + set_len: same distribution shifted by begin
+#[kani::proof]
+#[kani::unwind(7)]
+pub fn vectored_slice_mut_three_members() {
+    let mut bufs = vec![mk(1, 0, 10), mk(2, 0, 20), mk(1, 0, 30)];
+    for b in bufs.iter_mut() { for c in b.spare_capacity_mut() { c.write(7); } }
+    let begin = any_le(4);
+    let mut vs = bufs.slice_mut(begin);
+    let n = any_le(4 - begin);
+    unsafe { SetLen::set_len(&mut vs, n) };
+    let bufs = vs.into_inner();
+    let total = begin + n;   // VectoredSlice::set_len records begin + n on the underlying buffers
+    assert!(bufs[0].len() + bufs[1].len() + bufs[2].len() == total);
+    assert!(bufs[0].len() == if total > 1 { 1 } else { total });
+    assert!(bufs[2].len() == if total > 3 { total - 3 } else { 0 });
+}
